@@ -474,8 +474,21 @@ theorem emitHandshake (cfg : Cfg) (h : IdxInv k) (fd : Nat) : IdxInv (k.emitHand
     · exact h
     · exact h.emit _ _ _
 
-theorem checkRetx (cfg : Cfg) (h : IdxInv k) : IdxInv (Kernel.checkRetx cfg k) := by
-  unfold Kernel.checkRetx
+theorem persistProbe (cfg : Cfg) (h : IdxInv k) (fd : Nat) : IdxInv (k.persistProbe cfg fd) := by
+  unfold Kernel.persistProbe
+  split
+  · exact h
+  · split
+    · exact h
+    · dsimp only
+      split
+      · exact h
+      · split
+        · exact h.setSock _ _
+        · exact (h.setSock _ _).emit _ _ _
+
+theorem checkRetx0 (cfg : Cfg) (h : IdxInv k) : IdxInv (Kernel.checkRetx0 cfg k) := by
+  unfold Kernel.checkRetx0
   dsimp only
   apply foldl_inv (P := IdxInv)
   · apply foldl_inv (P := IdxInv)
@@ -485,6 +498,14 @@ theorem checkRetx (cfg : Cfg) (h : IdxInv k) : IdxInv (Kernel.checkRetx cfg k) :
       exact hb.emitHandshake cfg fd
   · intro b fd hb
     exact hb.abortOrReap _ _ _
+
+theorem checkRetx (cfg : Cfg) (h : IdxInv k) : IdxInv (Kernel.checkRetx cfg k) := by
+  have h0 : IdxInv (Kernel.checkRetx0 cfg k) := h.checkRetx0 cfg
+  unfold Kernel.checkRetx
+  dsimp only
+  split
+  · exact foldl_inv (P := IdxInv) _ _ _ h0 (fun b a hb => hb.persistProbe cfg a)
+  · exact h0
 
 theorem segmentOne (cfg : Cfg) (h : IdxInv k) (fd : Nat) : IdxInv (Kernel.segmentOne cfg k fd) := by
   unfold Kernel.segmentOne
